@@ -296,7 +296,12 @@ func report(cfg *runConfig, cs *ContractSet, out *genOutput, results []*OblResul
 	}
 	ev := &evidence{PropertyID: cfg.prop, Tier: cfg.tier, Seed: seedEnv(), Level: "proof", Coverage: cov, WallS: round3(wall), Violations: nViol,
 		Assumptions: trusted}
-	writeJSON(filepath.Join(verifDir(), "evidence", cfg.prop+".json"), ev)
+	if cfg.only != "" {
+		// a partial run (--only) is a development aid: it must not replace the property's evidence file
+		writeJSON(filepath.Join(verifDir(), "evidence", "partial", cfg.prop+".json"), ev)
+	} else {
+		writeJSON(filepath.Join(verifDir(), "evidence", cfg.prop+".json"), ev)
+	}
 	fmt.Fprintf(os.Stderr, "%s: %d obligations, %d discharged, %d known findings, %d violations, %d cover checks (%d unreachable); load %.1fs gen %.1fs wall %.1fs\n",
 		cfg.prop, nObl, nDis, nKnown, nViol, nCover, nCoverBad, tLoad, tGen, wall)
 	if cfg.verbose {
